@@ -129,6 +129,22 @@ def _build(d):
         if isinstance(key, str) and d.pick(3) == 0:
             key = key.swapcase()
         return {'k': 'MATCH0', 'col': col, 'key': key}
+    if k == 4 and d.pick(3) == 0:
+        # ascending TEXT data (texts order case-insensitively, C09), the
+        # letter case of column and key chosen independently
+        words = ['apple', 'banana', 'cherry', 'date', 'elder', 'fig',
+                 'grape', 'kiwi', 'lemon', 'mango', 'nut', 'olive']
+        vals = sorted(set(d.choice(words) for _ in range(min(nrows, 9))))
+        if d.pick(5) == 0:
+            vals = sorted(vals + [d.choice(vals)])
+
+        def recase(w_):
+            return d.choice([w_, w_.upper(), w_.capitalize(), w_.swapcase(),
+                             w_[:-1] + w_[-1].upper()])
+        key = d.choice(vals) if d.pick(3) else d.choice(
+            ['a', 'b', 'cz', 'dz', 'hello', 'zz', 'm', 'kiwis', 'lemo'])
+        return {'k': 'MATCH1', 'col': [recase(v) for v in vals],
+                'key': recase(key), 'omit': bool(d.pick(2))}
     if k == 4:
         vals = sorted(set(d.int(-20, 40) for _ in range(nrows)))
         if d.pick(6) == 0 and vals:
@@ -359,12 +375,16 @@ def judge(case):
         if not col:
             return res
         pos = 0
+        if isinstance(key, str):
+            col = [v.lower() for v in col]
+            key = key.lower()
+            res.labels = ('MATCH1-text',)
         for i, v in enumerate(col):
             if v <= key:
                 pos = i + 1
-        f = '=MATCH(%s,%s%s)' % (lit(key), _rng(0, len(col)),
+        f = '=MATCH(%s,%s%s)' % (lit(case['key']), _rng(0, len(col)),
                                   '' if case['omit'] else ',1')
-        o = lib.eval_formula(f, _cells([col]), addr='Sheet1!Z1')[0]
+        o = lib.eval_formula(f, _cells([case['col']]), addr='Sheet1!Z1')[0]
         want = N(pos) if pos else ('E', '#N/A')
         res.nontrivial = pos > 1
         if o != want:
